@@ -441,6 +441,11 @@ func (c *C08Case) addFault(r *gen.Rand, names []string) {
 			c.OutFile = "result." + r.Pick("json", "yaml", "toml")
 			inv.Args = append([]string{"-o", c.OutFile}, inv.Args...)
 			c.Faults = append(c.Faults, "sink:output-file")
+			if r.Chance(0.4) {
+				// the disk fills up while the output file is written
+				inv.Injects = append(inv.Injects, procsim.Inject{Syscall: "write", Path: filepath.Join(c08Dir, c.OutFile), Errno: r.Pick("ENOSPC", "EIO")})
+				c.Faults = append(c.Faults, "io:write:output-file")
+			}
 		}
 	}
 }
@@ -525,6 +530,12 @@ func judgeC08(e *Env, c *C08Case, tag string, run int64) (*c08Obs, *procsim.Outc
 				return nil
 			}
 			if c.OutFile != "" {
+				for _, in := range c.Inv.Injects {
+					if in.Syscall == "write" && out.Injected > 0 {
+						viol("exit-0-with-failed-sink", "a write to the output file failed with "+in.Errno+" and the tool exited 0")
+						return nil
+					}
+				}
 				if out.Stdout != "" {
 					viol("stdout-not-empty-with-output-file", "")
 					return nil
